@@ -356,6 +356,20 @@ def handle (line : String) : Except String (String × Bool) := do
       let κ' := kappaRev κ R gp gm
       pure (bit (revOkB Ω κ R gp gm) ++ "|" ++ String.join (R.map fun c => bit (acceptCode Ω κ' c)) ++ "|" ++
             (if boxSize gm ≤ boxLimit then bit (revParetoMinB Ω κ R gp gm) else "?") ++ "|" ++ " ".intercalate (Ω.map fun w => toString (κ' w)), true)
+    | "rcert" =>
+      -- certificate that no c-revision parameters exist (theorem C19_none_cert_sound)
+      let n ← pnat
+      let gpz ← pnat
+      let Ω := allWorlds n
+      let mut rs : List Nat := []
+      for _ in [0:Ω.length] do rs := (← pnat) :: rs
+      let R ← listOf pcond
+      let pool ← listOf (do
+        let am ← listOf (listOf pnat)
+        let zm ← pnat
+        pure (⟨am, zm⟩ : RLeaf))
+      let κ := rankFn Ω rs.reverse
+      pure (bit (revCertCheck Ω κ R (gpz == 1) pool), true)
     | "crevsearch" =>
       -- is there any parameter vector in the cube [0..B] (γ⁺ and γ⁻, or γ⁻ only when gpz = 1)?
       let n ← pnat
